@@ -33,6 +33,15 @@ VARIABLES
 
 vars == <<st, know, ops, snap, hist>>
 coreView == <<st, know, ops, snap>>
+\* Steps that leave the abstract state unchanged -- a duplicate delivery, a merge of a state whose knowledge is subsumed --
+\* are tagged in hist ("dup", or a fourth element "noop").  Under coreView TLC identifies the state after such a step
+\* with the state before it (hist is hidden), so it prints the step but never a behaviour that CONTINUES after it: what a
+\* buggy no-op breaks is then seen only by the per-state obligations.  Configs that use `VIEW noopView` with
+\* `CONSTRAINT NoopBound1` distinguish one such step (which one it was is part of the view) and enumerate everything
+\* that can follow it.
+noopTags(h) == SelectSeq(h, LAMBDA a : Len(a) = 4 \/ a[1] = "dup")
+noopView == <<st, know, ops, snap, noopTags(hist)>>
+NoopBound1 == Len(noopTags(hist)) <= 1
 
 Init ==
   /\ st = [r \in Reps |-> InitSt]
@@ -82,7 +91,8 @@ MergeFrom(r) ==
   /\ \E q \in Reps \ {r} :
        /\ st' = [st EXCEPT ![r] = Merge(@, st[q])]
        /\ know' = [know EXCEPT ![r] = @ \cup know[q]]
-       /\ hist' = Append(hist, <<"mrg", r, q>>)
+       /\ hist' = Append(hist, IF Merge(st[r], st[q]) = st[r] /\ know[q] \subseteq know[r]
+                                THEN <<"mrg", r, q, "noop">> ELSE <<"mrg", r, q>>)
   /\ UNCHANGED <<ops, snap>>
 
 SaveSnap(q) ==
@@ -98,7 +108,8 @@ MergeSnap(r) ==
   /\ snap # <<>>
   /\ st' = [st EXCEPT ![r] = Merge(@, snap[1])]
   /\ know' = [know EXCEPT ![r] = @ \cup snap[2]]
-  /\ hist' = Append(hist, <<"mrgsnap", r, 0>>)
+  /\ hist' = Append(hist, IF Merge(st[r], snap[1]) = st[r] /\ snap[2] \subseteq know[r]
+                           THEN <<"mrgsnap", r, 0, "noop">> ELSE <<"mrgsnap", r, 0>>)
   /\ UNCHANGED <<ops, snap>>
 
 \* Serialise and restore replica r: a stuttering step of the abstract state.
